@@ -76,6 +76,40 @@ fn main() {
         return;
     }
 
+    if id == "table" {
+        // the sub-check table of DESIGN.md section 6.0, printed from the code
+        fn sep(n: u64) -> String {
+            let s = n.to_string();
+            let mut out = String::new();
+            for (i, ch) in s.chars().enumerate() {
+                if i > 0 && (s.len() - i) % 3 == 0 {
+                    out.push(',');
+                }
+                out.push(ch);
+            }
+            out
+        }
+        println!("| id | sub-check | driver and size | configurations |\n|---|---|---|---|");
+        for p in props::all() {
+            for s in &p.subchecks {
+                let d = match &s.driver {
+                    Driver::Generated { quick, thorough, genome_len, .. } => {
+                        format!("generated ({}-byte genomes), {} / {} cases", genome_len, sep(*quick), sep(*thorough))
+                    }
+                    Driver::Custom { .. } if s.exhaustive => "custom driver, exhaustive enumeration".to_string(),
+                    Driver::Custom { .. } => "custom driver (directed search / fixed case list)".to_string(),
+                };
+                let c = match s.configs {
+                    Configs::Both => "release + checked",
+                    Configs::ReleaseOnly => "release",
+                    Configs::CheckedOnly => "checked",
+                };
+                println!("| {} | `{}` | {} | {} |", p.id, s.name, d, c);
+            }
+        }
+        return;
+    }
+
     let prop = match props::all().into_iter().find(|p| p.id == id) {
         Some(p) => p,
         None => {
